@@ -106,11 +106,13 @@ type template struct {
 func none(string) bool { return false }
 
 func signV1With(w *chain.World, t *types.Transaction, parent types.Hash256, keyIdx []int, pubIdx []uint64, cf types.CoveredFields, timelock uint64) {
+	start := len(t.Signatures)
 	for i := range keyIdx {
 		t.Signatures = append(t.Signatures, types.TransactionSignature{ParentID: parent, PublicKeyIndex: pubIdx[i], CoveredFields: cf, Timelock: timelock})
 	}
-	for i := range t.Signatures {
-		sig := &t.Signatures[i]
+	for j := start; j < len(t.Signatures); j++ {
+		i := j - start
+		sig := &t.Signatures[j]
 		if sig.Signature != nil {
 			continue
 		}
@@ -201,6 +203,16 @@ func templates(k *chain.Keys) []template {
 				return chain.Use{}, false
 			}
 			signV1With(w, &t, types.Hash256(p.ID), []int{0, 2}, []uint64{0, 2}, whole, 0)
+			return chain.Use{Name: "v1", V1: &t}, true
+		}, none},
+		{"v1 2-of-3 multisig, second signature covers the first", func(w *chain.World) (chain.Use, bool) {
+			uc := multisigUC(k)
+			t, p, ok := v1base(w, uc.UnlockHash(), uc)
+			if !ok {
+				return chain.Use{}, false
+			}
+			signV1With(w, &t, types.Hash256(p.ID), []int{0}, []uint64{0}, whole, 0)
+			signV1With(w, &t, types.Hash256(p.ID), []int{2}, []uint64{2}, types.CoveredFields{WholeTransaction: true, Signatures: []uint64{0}}, 0)
 			return chain.Use{Name: "v1", V1: &t}, true
 		}, none},
 		{"v1 timelocked conditions and timelocked signature", func(w *chain.World) (chain.Use, bool) {
@@ -593,7 +605,7 @@ func moveUnspec(tp template, label string) bool {
 		parts := strings.Split(strings.TrimPrefix(label, "exchange "), " <-> ")
 		// v1 signature entries are self-contained (parent, key index, covered fields, signature) and do not sign each
 		// other unless listed in CoveredFields.Signatures: re-ordering whole entries changes nothing that was authorised
-		if len(parts) == 2 && wholeV1SigEntry(parts[0]) && wholeV1SigEntry(parts[1]) {
+		if len(parts) == 2 && wholeV1SigEntry(parts[0]) && wholeV1SigEntry(parts[1]) && !strings.Contains(tp.name, "covers the first") {
 			return true
 		}
 		for _, p := range parts {
